@@ -99,7 +99,12 @@ func (r *replayer) binFor(pkgDir string) (string, error) {
 	bin := filepath.Join(r.scratch, strings.ReplaceAll(pkgDir, "/", "_")+".test")
 	ctx, cancel := context.WithTimeout(context.Background(), 10*time.Minute)
 	defer cancel()
-	cmd := exec.CommandContext(ctx, "go", "test", "-tags", "verif,fast_test", "-vet=off", "-c", "-o", bin, "-overlay", ovFile, "./"+pkgDir)
+	args := []string{"test", "-tags", "verif,fast_test", "-vet=off", "-c", "-o", bin, "-overlay", ovFile}
+	if r.cfg.Property == "C19" {
+		args = append(args, "-race") // candidate data races are confirmed by the race detector
+	}
+	args = append(args, "./"+pkgDir)
+	cmd := exec.CommandContext(ctx, "go", args...)
 	cmd.Dir = r.cfg.Repo
 	cmd.Env = append(os.Environ(), "GOFLAGS=-mod=mod", "GOPROXY=off", "GOSUMDB=off", "GOTOOLCHAIN=local")
 	out, err := cmd.CombinedOutput()
@@ -162,6 +167,10 @@ func unquote(s string) (string, error) {
 	return strconvUnquote(s)
 }
 
+// tryIndex is exported to the native harness as $ZZVERIF_TRY: schedule-dependent helpers (Race2) vary the
+// start order of their goroutines with it.
+var tryIndex = 0
+
 func (r *replayer) run(pkgDir, entry string, script []byte, logPath string, timeout time.Duration) (string, error) {
 	bin, err := r.binFor(pkgDir)
 	if err != nil {
@@ -174,7 +183,7 @@ func (r *replayer) run(pkgDir, entry string, script []byte, logPath string, time
 	defer cancel()
 	cmd := exec.CommandContext(ctx, bin, "-test.run", "^TestZZReplay$", "-test.count=1", "-test.v", "-test.timeout", (timeout - 2*time.Second).String())
 	cmd.Dir = filepath.Join(r.cfg.Repo, pkgDir)
-	cmd.Env = append(os.Environ(), "ZZVERIF_SCRIPT="+sf, "ZZVERIF_ENTRY="+entry, "ZZVERIF_LOG="+logPath, "VERIF_TIER="+r.cfg.Tier, "PAYMENT_RETRY_TIME=2")
+	cmd.Env = append(os.Environ(), "ZZVERIF_SCRIPT="+sf, "ZZVERIF_ENTRY="+entry, "ZZVERIF_LOG="+logPath, "VERIF_TIER="+r.cfg.Tier, "PAYMENT_RETRY_TIME=2", fmt.Sprintf("ZZVERIF_TRY=%d", tryIndex))
 	out, err := cmd.CombinedOutput()
 	if ctx.Err() != nil {
 		return string(out) + "\nZZVERIF-TIMEOUT", nil
@@ -191,26 +200,65 @@ func (r *replayer) replay(e entryInfo, ob *obligation) (dir string, reproduced b
 	os.WriteFile(filepath.Join(dir, "script.json"), script, 0o644)
 	meta := map[string]interface{}{"property": r.cfg.Property, "entry": e.Name, "pkgdir": e.PkgDir, "label": ob.Label, "known_finding": ob.Known,
 		"how": "bin/check replay " + dir}
+	if len(ob.races) > 0 {
+		meta["races"] = ob.races
+	}
 	_ = meta
 	mb, _ := json.MarshalIndent(meta, "", " ")
 	os.WriteFile(filepath.Join(dir, "meta.json"), mb, 0o644)
 	var out string
 	var err error
 	// native runs with select/goroutines depend on the Go scheduler: give a witness three tries
-	for try := 0; try < 3; try++ {
+	tries := 3
+	if len(ob.races) > 0 {
+		tries = 6 // whether the race detector sees a race depends on which handler gets the lock first
+	}
+	for try := 0; try < tries; try++ {
+		tryIndex = try
 		out, err = r.run(e.PkgDir, e.Name, script, filepath.Join(dir, "native.log"), 60*time.Second)
 		os.WriteFile(filepath.Join(dir, "native_output.txt"), []byte(out), 0o644)
 		if err != nil {
 			return dir, false, out
 		}
-		if reproducedIn(out, ob.Label) {
+		if reproducedIn(out, ob.Label, ob.races) {
 			return dir, true, out
 		}
 	}
 	return dir, false, out
 }
 
-func reproducedIn(out, label string) bool {
+var ssaMethodRe = regexp.MustCompile(`^\(\*(.*)\.(\w+)\)\.(\w+)$`)
+
+// raceSideIn: one side of a candidate appears in a race report - by source line, or (for an access a
+// harness stub makes on behalf of the real collaborator, zzverif.RaceTouch) by the stub's function.
+func raceSideIn(block, where, fn string) bool {
+	if strings.Contains(block, where+" ") {
+		return true
+	}
+	if strings.Contains(where, "zz_verif_") && fn != "" {
+		if mm := ssaMethodRe.FindStringSubmatch(fn); mm != nil {
+			fn = mm[1] + ".(*" + mm[2] + ")." + mm[3]
+		}
+		return strings.Contains(block, fn+"()")
+	}
+	return false
+}
+
+func reproducedIn(out, label string, races []symex.RaceConflict) bool {
+	if len(races) > 0 {
+		// a candidate data race is confirmed when one report of the race detector names both accesses
+		for _, block := range strings.Split(out, "==================") {
+			if !strings.Contains(block, "WARNING: DATA RACE") {
+				continue
+			}
+			for _, c := range races {
+				if raceSideIn(block, c.A, c.FnA) && raceSideIn(block, c.B, c.FnB) {
+					return true
+				}
+			}
+		}
+		return false
+	}
 	switch {
 	case strings.HasSuffix(label, ".no_panic"):
 		return strings.Contains(out, "ZZVERIF-PANIC") || strings.Contains(out, "panic:")
@@ -227,7 +275,10 @@ func ReplayDir(cfg Config, dir string) int {
 		fmt.Fprintln(os.Stderr, err)
 		return 2
 	}
-	var meta struct{ Property, Entry, Pkgdir, Label string }
+	var meta struct {
+		Property, Entry, Pkgdir, Label string
+		Races                          []symex.RaceConflict
+	}
 	json.Unmarshal(mb, &meta)
 	script, err := os.ReadFile(filepath.Join(dir, "script.json"))
 	if err != nil {
@@ -247,7 +298,7 @@ func ReplayDir(cfg Config, dir string) int {
 	if err != nil {
 		return 2
 	}
-	if reproducedIn(out, meta.Label) {
+	if reproducedIn(out, meta.Label, meta.Races) {
 		fmt.Printf("VIOLATION property=%s replay=%s\n", meta.Property, dir)
 		return 1
 	}
